@@ -9,9 +9,9 @@
     format width above the [u16] limit) is the result [None].
 
     Domain (what the generators produce, see docs/notes/C12.md): no argument groups, no
-    [requires]/conditional requirements, no global arguments, no value defaults/env/visible
-    aliases, no [flatten_help], no help template/override, plain styles, names in ASCII
-    (a short flag is one byte; "columns" reported by the harness are characters). *)
+    [requires]/conditional requirements, no [flatten_help], no help
+    template/override, plain styles, names in ASCII (a short flag is one byte; "columns" reported by
+    the harness are characters). *)
 From ClapModel Require Import Base.Bytes Base.Machine Parse.Cmd Gen.HelpTables.
 From RecordUpdate Require Import RecordSet.
 Import RecordSetNotations.
@@ -45,14 +45,23 @@ Record harg := mkHArg {
   ha_disp_ord : option N;
   ha_hide : bool; ha_hide_short : bool; ha_hide_long : bool;
   ha_next_line : bool; ha_hide_pv : bool;
-  ha_pvs : list hpv
+  ha_pvs : list hpv;
+  (* what [spec_vals] prints besides the possible values *)
+  ha_env : option (bytes * option bytes);       (* [Arg::env]: name, value read when the builder ran *)
+  ha_hide_env : bool; ha_hide_env_values : bool;
+  ha_defaults : list bytes; ha_hide_default : bool;
+  ha_aliases : list (bytes * bool);             (* (name, visible) *)
+  ha_short_aliases : list (N * bool);
+  ha_global : bool                              (* [Arg::global]: copied into every subcommand by the build *)
 }.
 #[export] Instance eta_harg : Settable _ := settable! mkHArg
   <ha_id; ha_short; ha_long; ha_action; ha_num; ha_valnames; ha_index; ha_required; ha_last; ha_req_eq;
    ha_help; ha_long_help; ha_heading; ha_disp_ord; ha_hide; ha_hide_short; ha_hide_long; ha_next_line;
-   ha_hide_pv; ha_pvs>.
+   ha_hide_pv; ha_pvs; ha_env; ha_hide_env; ha_hide_env_values; ha_defaults; ha_hide_default; ha_aliases;
+   ha_short_aliases; ha_global>.
 Definition harg_new (i : bytes) (act : action) : harg :=
-  mkHArg i None None act None [] None false false false None None None None false false false false false [].
+  mkHArg i None None act None [] None false false false None None None None false false false false false []
+         None false false [] false [] [] false.
 
 (** the four global settings the help path reads ([Command::next_line_help], [disable_help_flag],
     [disable_version_flag], [disable_help_subcommand] all go through [global_setting]) *)
@@ -115,8 +124,15 @@ Definition cmd_with (c : hcmd) (args : list harg) (subs : list hcmd) : hcmd :=
   c <| hc_args := args' |> <| hc_subs := add_subs subs ctr |>.
 
 (** ---- the build step ---- *)
-(** [Arg::_build]: the number of values (the action is explicit in this model) *)
+(** [Arg::_build]: the default value of the action, the number of values (the action is explicit in
+    this model) *)
+Definition harg_default (a : harg) : harg :=
+  match action_default_value (ha_action a) with
+  | Some d => if is_nil (ha_defaults a) then a <| ha_defaults := [d] |> else a
+  | None => a
+  end.
 Definition harg_build (a : harg) : harg :=
+  let a := harg_default a in
   match ha_num a with
   | Some _ => a
   | None =>
@@ -176,12 +192,24 @@ Definition h_check_help_and_version (c : hcmd) : hcmd :=
   let c := if negb (h_is_disable_version_flag_set c) then c <| hc_args := hc_args c ++ [h_version_arg] |> else c in
   if negb (h_is_set hs_no_help_sub c) then c <| hc_subs := hc_subs c ++ [h_help_subcommand c] |> else c.
 
+(** [_propagate_global_args]: every global argument of [c] is pushed (as it is, not yet built) into
+    every subcommand that has no argument of that id; the generated [help] subcommand is skipped *)
+Definition h_add_global (sc : hcmd) (a : harg) : hcmd :=
+  if existsb (fun b => beq (ha_id b) (ha_id a)) (hc_args sc) then sc
+  else sc <| hc_args := hc_args sc ++ [a] |>.
+Definition h_propagate_global_args (c : hcmd) : hcmd :=
+  let autogenerated_help_subcommand := negb (h_is_set hs_no_help_sub c) in
+  let globals := filter ha_global (hc_args c) in
+  c <| hc_subs := map (fun sc => if beq (hc_name sc) s_help && autogenerated_help_subcommand then sc
+                                 else fold_left h_add_global globals sc) (hc_subs c) |>.
+
 (** [_build_self] *)
 Definition h_build_self (c : hcmd) : hcmd :=
   if hc_built c then c else
   let c := if is_nil (hc_subs c) then c <| hc_set := (hc_set c) <| hs_no_help_sub := true |> |> else c in
   let c := c <| hc_subs := map (h_propagate_subcommand c) (hc_subs c) |> in
   let c := h_check_help_and_version c in
+  let c := h_propagate_global_args c in
   let c := c <| hc_args := build_hargs (hc_args c) 1 |> in
   c <| hc_built := true |>.
 
